@@ -320,6 +320,11 @@ def bounded_agreement(tier, seed):
         yield "call-headers-and-extra-httpx-arguments", {}, [dict(variables=None, headers={"X-Call": "1"}, params={"p": "1"})]
         yield "content-type-given-by-the-caller", {}, [dict(variables={"a": 1}, headers={"Content-Type": "application/graphql+json"})]
         yield "content-type-given-by-the-caller-in-lower-case", {}, [dict(variables={"a": 1}, headers={"content-type": "application/graphql+json"})]
+        # a failing transport: the error reaches the caller from every client, after one attempt
+        yield "transport-error", {}, [dict(variables={"a": 1}, _fail="connect")]
+        yield "transport-timeout-then-a-normal-call", {}, [dict(variables={"a": 1}, _fail="timeout"), dict(variables={"a": 2})]
+        yield "call-headers-do-not-outlive-the-call", {}, [dict(variables={"a": 1}, headers={"Authorization": "Bearer once", "Content-Type": "application/graphql+json"}),
+                                                           dict(variables={"a": 2})]
         yield "upload-whose-stream-was-read-before", {}, [dict(variables={"f": "UPLOAD-READ"})]
         yield "the-same-upload-in-two-successive-calls", {}, [dict(variables={"f": "UPLOAD-0"}), dict(variables={"f": "UPLOAD-0", "g": "UPLOAD-1"})]
         import pydantic
@@ -344,9 +349,15 @@ def bounded_agreement(tier, seed):
                 return {"UPLOAD-0": U[0], "UPLOAD-1": U[1], "UPLOAD-READ": U[2]}.get(v, v) if isinstance(v, str) else v
             seen = []
 
+            fail = []
+
             def handler(request):
                 request.read()
                 seen.append(_canonical_request(request))
+                if fail and fail[0] == "connect":
+                    raise httpx.ConnectError("refused", request=request)
+                if fail and fail[0] == "timeout":
+                    raise httpx.ReadTimeout("slow", request=request)
                 return httpx.Response(200, json={"data": {}})
             kw = dict(url="http://localhost/graphql", **ctor_kw)
             if tracer:
@@ -358,19 +369,27 @@ def bounded_agreement(tier, seed):
                     async def run():
                         for c in calls:
                             c = dict(c)
-                            await client.execute(QUERY_TEXT, operation_name="Q", variables=materialise(c.pop("variables")), **c)
+                            fail[:] = [c.pop("_fail")] if "_fail" in c else []
+                            try:
+                                await client.execute(QUERY_TEXT, operation_name="Q", variables=materialise(c.pop("variables")), **c)
+                            except httpx.TransportError as e:
+                                seen.append(f"raises {type(e).__name__}")
                     asyncio.run(run())
                 else:
                     client = cls(http_client=httpx.Client(transport=httpx.MockTransport(handler)), **kw)
                     for c in calls:
                         c = dict(c)
-                        client.execute(QUERY_TEXT, operation_name="Q", variables=materialise(c.pop("variables")), **c)
+                        fail[:] = [c.pop("_fail")] if "_fail" in c else []
+                        try:
+                            client.execute(QUERY_TEXT, operation_name="Q", variables=materialise(c.pop("variables")), **c)
+                        except httpx.TransportError as e:
+                            seen.append(f"raises {type(e).__name__}")
                 seen_by[vname] = seen
             except Exception as e:      # noqa
                 seen_by[vname] = f"raises {type(e).__name__}: {str(e)[:160]}"
         first_name = next(iter(seen_by))
         # `caller-supplied headers merged and winning`: what the caller passed to the call is what arrives, under that name once
-        if isinstance(seen_by[first_name], list) and len(seen_by[first_name]) == len(calls):
+        if isinstance(seen_by[first_name], list) and len(seen_by[first_name]) == len(calls) and all(isinstance(x, dict) for x in seen_by[first_name]):
             for c, req in zip(calls, seen_by[first_name]):
                 lost = {h: (v, req["headers"].get(h.lower())) for h, v in (c.get("headers") or {}).items() if req["headers"].get(h.lower()) != v}
                 if lost:
@@ -382,7 +401,7 @@ def bounded_agreement(tier, seed):
                               outcome={first_name: str(seen_by[first_name])[:700], differing[0]: str(seen_by[differing[0]])[:700]}))
     return dict(function=f"{DEP}base_client:BaseClient.execute", name="bounded.clients-agree",
                 kind="bounded stand-in (end-to-end through httpx.MockTransport, native)",
-                domain="10 configurations (constructor / call headers, caller content type, extra httpx arguments, read and re-sent uploads, non-JSON leaves) "
+                domain="13 configurations (constructor / call headers, caller content type, extra httpx arguments, read and re-sent uploads, non-JSON leaves) "
                        "x 6 client variants, pairwise identical requests", cases=cases, failed=len(fails), failures=fails)
 
 
